@@ -251,7 +251,9 @@ func scenario(id string, sc scen, last bool) e1lib.Scenario {
 				}
 			}
 			act()
-			s2lib.WireReader(b, nil, func(sid uint16, raw []byte) {
+			s2lib.WireReader(b, func(sid uint16, payload []byte) {
+				rt.Log("seg %d", len(payload))
+			}, func(sid uint16, raw []byte) {
 				lab := m.label(raw)
 				if sid != wantSegID {
 					lab = fmt.Sprintf("?segment-id-%04x:%s", sid, lab)
@@ -377,6 +379,7 @@ func oracle(p *protos.Proto, m *model, sc scen, r *rt.Result) []rt.Finding {
 		callAt[k], retAt[k] = -1, -1
 	}
 	var wire, handled, rejects, errsBefore, errsAfter []string
+	var segs []int
 	var trs []trEv
 	quiet, final := false, ""
 	for i, l := range r.Logs {
@@ -396,6 +399,9 @@ func oracle(p *protos.Proto, m *model, sc scen, r *rt.Result) []rt.Finding {
 			if g[1] == "err" {
 				retErr[k] = g[2]
 			}
+		case "seg":
+			sz, _ := strconv.Atoi(rest)
+			segs = append(segs, sz)
 		case "wire":
 			wire = append(wire, rest)
 		case "handle":
@@ -524,6 +530,21 @@ func oracle(p *protos.Proto, m *model, sc scen, r *rt.Result) []rt.Finding {
 			}
 			return one(key, "wire message %d is %s, the queue (= local transition order %v) has %s there; wire %v", i, wire[i], sigma, want, wire)
 		}
+	}
+	// (1') reassembly of the wire: every segment carries 1..65535 payload bytes and the segments
+	// together carry exactly the queued messages' encodings, nothing extra
+	segSum, wantSum := 0, 0
+	for _, sz := range segs {
+		if sz < 1 || sz > 65535 {
+			return one("c12:segment-size", "a segment with %d payload bytes is on the wire (segments %v, wire %v)", sz, segs, wire)
+		}
+		segSum += sz
+	}
+	for _, k := range sigma {
+		wantSum += len(m.enc[sc.calls[k]])
+	}
+	if segSum != wantSum {
+		return one("c12:wire-extra-bytes", "the segments carry %d payload bytes, the queued messages encode to %d (segments %v, wire %v)", segSum, wantSum, segs, wire)
 	}
 	// (3) the conforming peer accepts everything
 	if len(rejects) > 0 {
@@ -790,6 +811,62 @@ func generate(thorough bool) []e1lib.Scenario {
 						light = append(light, s)
 					}
 				}
+			}
+		}
+	}
+	// large outbound messages around the segment boundary (block-fetch server): one Block whose
+	// encoding is 65533..131070 bytes, as a batch of its own ('^') and coalesced with StartBatch
+	// ('+': the batch is then 2 bytes longer); the peer reassembles the wire
+	{
+		id := "block-fetch/NtN/server"
+		m := getShared(id).mod[false]
+		for i := range m.alpha {
+			if !m.hidden[i] {
+				continue
+			}
+			for _, drained := range []bool{false, true} {
+				// the server starts streaming once it has seen the request (while still in Idle
+				// the engine rightly refuses to queue more than the Idle state's byte limit)
+				sc := scen{kind: "seq", calls: []int{m.letter("StartBatch"), i, m.letter("BatchDone")}, wait: []bool{true, false, false}}
+				if drained {
+					sc.drain = []bool{false, true, true}
+				}
+				s := scenario(id, sc, false)
+				s.MinB, s.MaxB, s.Budget = 0, 0, 60*time.Second
+				if thorough {
+					s.MinB, s.MaxB, s.Budget = 1, 1, 5*time.Minute
+				}
+				light = append(light, s)
+			}
+		}
+	}
+	// a non-permitted message of a streaming server (legality from the specification automaton):
+	// first message after the peer's request, or after a conforming prefix and a pause
+	for _, id := range streamConfigs {
+		m := getShared(id).mod[false]
+		prefixes := [][]int{nil}
+		pl := 1
+		if thorough {
+			pl = 2
+		}
+		prefixes = append(prefixes, m.conforming(pl)...)
+		for _, pre := range prefixes {
+			bad := m.illegalAfter(pre)
+			if len(bad) == 0 || m.run(append(append([]int(nil), pre...), bad[0])).badInDone {
+				continue
+			}
+			for _, x := range bad {
+				calls := append(append([]int(nil), pre...), x)
+				w := make([]bool, len(calls))
+				for k := 1; k < len(calls); k++ {
+					w[k] = true
+				}
+				s := scenario(id, scen{kind: "illegal", calls: calls, wait: w}, false)
+				s.MinB, s.MaxB, s.Budget = 1, 1, 90*time.Second
+				if !thorough && len(pre) > 0 {
+					s.MinB, s.MaxB = 0, 0 // quick: after a prefix on the canonical schedule only
+				}
+				light = append(light, s)
 			}
 		}
 	}
